@@ -536,6 +536,9 @@ def enumerate_programs(tier):
     for p in PR.depth1():
         if p[0][0] not in polyn:
             res.append((p, 'smooth', 1))
+    # fan-out programs (an operand of every operation is used again after it), judged against forward mode
+    for p in PR.fanout_programs():
+        res.append((p, 'smooth', 4))
     out = []
     for p, kind, d in res:
         fp = flatten_prog(p)
